@@ -47,7 +47,7 @@ type natsLeg struct {
 
 var natsLegSeq uint64
 
-func startNatsLeg(broker *rig.NatsServer, proto string, workers uint) (*natsLeg, error) {
+func startNatsLeg(broker *rig.NatsServer, proto string, workers uint, watermark time.Duration) (*natsLeg, error) {
 	l := &natsLeg{handler: &e2e.Handler{Behave: behave}, broker: broker, served: make(chan struct{})}
 	sconn, err := broker.Connect()
 	if err != nil {
@@ -57,9 +57,19 @@ func startNatsLeg(broker *rig.NatsServer, proto string, workers uint) (*natsLeg,
 	l.subject = fmt.Sprintf("verif.c14.%d", atomic.AddUint64(&natsLegSeq, 1))
 	p := mainsvc.NewFFooProcessor(l.handler)
 	l.writeMu = p.GetWriteMutex()
-	l.srv = frugal.NewFNatsServerBuilder(sconn, p, rig.ProtocolFactory(proto), []string{l.subject}).
+	b := frugal.NewFNatsServerBuilder(sconn, p, rig.ProtocolFactory(proto), []string{l.subject})
+	if watermark > 0 {
+		// the high watermark is the time a request may wait in the server's
+		// queue before a warning is logged: a diagnostic, never a reason not
+		// to answer
+		b = b.WithHighWatermark(watermark)
+	}
+	l.srv = b.
 		WithWorkerCount(workers).
-		WithRequestReceivedEventHandler(func(map[interface{}]interface{}) { atomic.AddInt64(&l.received, 1) }).
+		WithRequestReceivedEventHandler(func(props map[interface{}]interface{}) {
+			frugal.DefaultFNatsServerOnRequestReceived(props) // keep what a server without custom handlers does
+			atomic.AddInt64(&l.received, 1)
+		}).
 		WithRequestFinishedEventHandler(func(map[interface{}]interface{}) { atomic.AddInt64(&l.finished, 1) }).
 		Build()
 	go func() { l.srv.Serve(); close(l.served) }()
